@@ -441,6 +441,28 @@ def run(world, rep, tier, only=None):
                                (n.text()[:30], n.line, f.name))
     rep.floor("C01.o counters handed to ext2fs_iblk_add_blocks", n_ctr, 1)
 
+    # ------------------------------------------------------------------ C01.p a rebuilt extent tree holds no extent longer than its kind allows
+    # Pass 1E collects a file's mapping into a list (merging what is contiguous) and writes it back with
+    # ext2fs_extent_insert(), which rejects a length above EXT_INIT_MAX_LEN - or above EXT_UNINIT_MAX_LEN, one less, for
+    # an unwritten extent.  By then the old tree is freed: a rejected insert leaves the inode without its mapping and a
+    # run that reports success.  On the way to the insert every extent's length has been compared with the maximum of
+    # *its* kind (the list is cut into pieces there, or never allowed to grow beyond it).
+    ex_fns = {f.name: f for f in prog.fns_in_file("e2fsck/extents.c")}
+    rer = ex_fns["rewrite_extent_replay"]
+    ins_e = calls_to(rer, "ext2fs_extent_insert")
+    rep.floor("C01.p insertions in rewrite_extent_replay", len(ins_e), 1)
+
+    def len_tests(f, macro):
+        return [f.block_end(b) for b in f.blocks if f.literal(b) and macro in T.macros(f.literal(b)[0]) and
+                ("e_len" in T.field_names(f.literal(b)[0]) or "e_len" in T.field_names(resolve_local(f, f.literal(b)[0])) or
+                 depends_on(f, f.literal(b)[0], lambda y: "e_len" in T.field_names(y)))]
+    for kind, macro in (("unwritten", "EXT_UNINIT_MAX_LEN"), ("written", "EXT_INIT_MAX_LEN")):
+        at_write = [t_ for t_ in len_tests(rer, macro) if any(c in rer.reach(rer.after(t_)) for c in ins_e)]
+        at_merge = all(len_tests(ex_fns[g], macro) for g in ("load_extents", "find_blocks") if g in ex_fns)
+        rep.ob("C01.p", site(rer, "length of an %s extent compared with its maximum before the insert" % kind), bool(at_write) or at_merge,
+               "%s is compared with e_len on the way to ext2fs_extent_insert() (%d test(s)), or in both collecting routines: %s" %
+               (macro, len(at_write), at_merge))
+
     # ------------------------------------------------------------------ C01.g bitmap checksum verification skipped only for a dirty own bitmap
     p5 = {f.name: f for f in prog.fns_in_file("e2fsck/pass5.c")}
     pass5 = p5.get("e2fsck_pass5")
